@@ -86,6 +86,19 @@ def cut_pieces(t, x):
     return sorted(out)
 
 
+def zero_leaves(t, off=0, parent="S"):
+    """[(time, label)] of the zero-length leaves that are not a direct voice of a simultaneity (those are dropped when the
+    simultaneity is divided: Chronon(0).split_at returns no part; not required here)"""
+    if t[0] == "L":
+        return [(off, t[2])] if t[1] == 0 and parent != "P" else []
+    out = []
+    for c in sp.kids(t):
+        out += zero_leaves(c, off, t[0])
+        if t[0] == "S":
+            off += sp.dur(c)
+    return out
+
+
 def bounds(s):
     """child boundaries of a sequence (starts and the end)"""
     out, o = {0}, 0
@@ -145,6 +158,8 @@ def oracle_split_child(t, x, io):
             return f"at time {p}: active {sp.at(r, p)}, before the call {sp.at(t, p)}"
     if nz_pieces(r) != cut_pieces(t, x):
         return "the non-zero leaves are not the originals divided at the requested time (lost / duplicated / reordered)"
+    if sorted(zero_leaves(r)) != sorted(zero_leaves(t)):
+        return "zero-length leaves inside sequences are not kept exactly once at their time"
     if t[0] == "S":
         if x not in bounds(r):
             return "no child boundary at the requested time afterwards"
@@ -187,9 +202,20 @@ def oracle_sequentialize(t, io):
                 return f"the pieces {ps} of leaf {l} do not tile its interval [{a}, {b})"
     if by:
         return f"leaves {sorted(by)} appear from nowhere"
+    voice_of = {l: p[0] for (_, _, l, p) in ft}
     for i, s in enumerate(sp.kids(r)):
         if s[0] != "P":
             return f"slice {i} is not a simultaneity"
+        # every voice of a slice stems from one voice of the receiver, in the receiver's voice order
+        last = -1
+        for v in sp.kids(s):
+            src = {voice_of.get(l) for (_, _, l, _) in sp.flat(v)}
+            if len(src) > 1:
+                return f"slice {i}: a voice mixes content of the receiver's voices {sorted(src)}"
+            if src:
+                if min(src) <= last:
+                    return f"slice {i}: voices are not in the receiver's voice order"
+                last = min(src)
         ds = [sp.dur(v) for v in sp.kids(s)]
         off = [d for d in ds if d != max(ds)]
         if any(d != 0 for d in off):    # all off-length voices of length 0: known limitation F3
